@@ -49,6 +49,9 @@ OutsideCases == [kind : {"outside"}, h : {2}, tas : {200}, side : {"north", "sou
 \* the data domain is closed: a point exactly on its outermost latitude / longitude line (or corner) is inside - it is
 \* answered with the wind of that line, not refused
 EdgeCases == [kind : {"uniform"}, h : {2, 9}, tas : {200}, u : {15}, v : {-20}, edge : {"north", "south", "east", "west", "north_east", "south_west"}]
+\* an aircraft that stands still in the air mass (true airspeed 0) drifts with the wind: the ground speed is the wind speed,
+\* and 0 in calm air - the length of the vector sum has no lower bound other than 0
+StillCases == [kind : {"uniform"}, h : {1, 3}, tas : {0}, u : {0, 15}, v : {0, -20}]
 WindOf(x) == IF x.kind = "uniform" THEN <<I(x.u), I(x.v)>>
              ELSE <<Add(I(x.u0), Tri(LAMBDA p, la, lo : U(x.f, p, la, lo), x.hp, x.hla, x.hlo)),
                     Add(I(x.v0), Tri(LAMBDA p, la, lo : V(x.f, p, la, lo), x.hp, x.hla, x.hlo))>>
@@ -58,7 +61,7 @@ Gs2(x) == LET d == Dirs[Eff(x)]  wv == WindOf(x)
           IN Add(Sq(e), Sq(n))
 Out(x) == IF x.kind = "outside" THEN [refused |-> TRUE, gs2 |-> I(0), w2 |-> I(0)]
           ELSE [refused |-> FALSE, gs2 |-> Gs2(x), w2 |-> Add(Sq(WindOf(x)[1]), Sq(WindOf(x)[2]))]
-WSpec == c \in (UniformCases \cup FieldCases \cup OutsideCases \cup HeadingCases \cup LayoutCases \cup EdgeCases) /\ o = <<>> /\ st = "pending"
+WSpec == c \in (UniformCases \cup FieldCases \cup OutsideCases \cup HeadingCases \cup LayoutCases \cup EdgeCases \cup StillCases) /\ o = <<>> /\ st = "pending"
          /\ [][st = "pending" /\ st' = "done" /\ o' = Out(c) /\ UNCHANGED c]_vars
 Done == st = "done"
 
